@@ -121,6 +121,9 @@ func (r *Run) ExecTx(tx *Tx) *TxResult {
 			res.Events = evs
 			res.OK = true
 		}
+		if !res.OK {
+			r.Stats.Inc("fault.atomic_execution_rolled_back")
+		}
 	case "srv":
 		r.Stats.Inc("tx.msgserver")
 		for _, msg := range msgs {
